@@ -198,6 +198,33 @@ func registerVF(e *Engine) {
 		m.res.Labels["cover:"+m.concreteString(args[0], "cover label")]++
 		return nil
 	}
+	// vf_Any(name, &obj, pools): obj becomes an unconstrained lazily materialised value
+	vf["vf_Any"] = func(fr *frame, args []value) value {
+		m := fr.m
+		name := m.concreteString(args[0], "vf_Any name")
+		pi := args[1].(iface)
+		pt, ok := pi.t.Underlying().(*types.Pointer)
+		if !ok {
+			panic("vf_Any: second argument must be a pointer")
+		}
+		root := &lazyRoot{pools: map[string][]string{}, maxSlice: 2, maxDev: -1}
+		if pm, ok := args[2].(*omap); ok && pm != nil {
+			for _, e := range pm.entries {
+				if e.live {
+					root.pools[e.key.(string)] = m.concreteStrings(e.val, "pool")
+				}
+			}
+		}
+		if p, ok := root.pools["#maxslice"]; ok && len(p) == 1 {
+			fmt.Sscanf(p[0], "%d", &root.maxSlice)
+		}
+		if p, ok := root.pools["#maxdev"]; ok && len(p) == 1 {
+			fmt.Sscanf(p[0], "%d", &root.maxDev)
+		}
+		cell := pi.v.(*value)
+		*cell = m.force(&lazyVal{path: name, t: pt.Elem(), root: root})
+		return nil
+	}
 	vf["vf_Tier"] = func(fr *frame, args []value) value { return fr.m.eng.Tier }
 	vf["vf_Symbolic"] = func(fr *frame, args []value) value { return true }
 	// vf_NoPanic(f func(), label): a panic inside f is a violation of label
